@@ -437,12 +437,21 @@ def r_instr(prog, tier):
     for mod in MODULES:
         for f in sorted(prog.modules[mod].funcs.values(), key=lambda x: x.fq):
             for c in walk_own(f.node):
-                if isinstance(c, ast.Compare) and len(c.ops) == 1 and isinstance(c.ops[0], (ast.In, ast.NotIn)) \
-                        and isinstance(c.comparators[0], ast.Constant) and isinstance(c.comparators[0].value, str) \
-                        and len(c.comparators[0].value) >= 2 and any(ch.isalpha() for ch in c.comparators[0].value) \
+                if not (isinstance(c, ast.Compare) and len(c.ops) == 1 and isinstance(c.ops[0], (ast.In, ast.NotIn))):
+                    continue
+                rhs = c.comparators[0]
+                # a named constant of the package that holds one string: `x in (DEFAULT_LABEL)`
+                if isinstance(rhs, ast.Name) and rhs.id not in f.locals and isinstance(f.module.consts.get(rhs.id), ast.Constant):
+                    rhs = f.module.consts[rhs.id]
+                elif isinstance(rhs, ast.Attribute) and isinstance(rhs.value, ast.Name) and rhs.value.id in f.module.aliases \
+                        and rhs.value.id not in f.locals and isinstance(
+                            prog.modules[f.module.aliases[rhs.value.id]].consts.get(rhs.attr), ast.Constant):
+                    rhs = prog.modules[f.module.aliases[rhs.value.id]].consts[rhs.attr]
+                if isinstance(rhs, ast.Constant) and isinstance(rhs.value, str) \
+                        and len(rhs.value) >= 2 and any(ch.isalpha() for ch in rhs.value) \
                         and not isinstance(c.left, ast.Constant):
                     n += 1
-                    lit = c.comparators[0].value
+                    lit = rhs.value
                     obs.append(Ob('R-INSTR', f.fq, 'membership in a collection of names, not in one name: `%s`' % unparse(c)[:60], False,
                                   'the right-hand side is the string %r (parentheses do not make a tuple): the test holds for every '
                                   'substring of it - %r, %r and the empty string are accepted like %r' % (lit, lit[:-1], lit[1:3], lit),
@@ -771,6 +780,7 @@ def r_oneshot(prog, tier):
                     continue
                 # complete runs: `for x in nm`, a comprehension over nm, list(nm) / sorted(nm) / sum(nm) ...
                 runs = []
+                runs_break = []
                 for m in cfg.eval_nodes():
                     for root in cfg.exprs(m.id):
                         for sub in ast.walk(root):
@@ -782,14 +792,32 @@ def r_oneshot(prog, tier):
                                 runs.append(m)
                     if m.kind == 'iter' and isinstance(m.ast.iter, ast.Name) and m.ast.iter.id == nm:
                         # a loop that can be left early (break / return) may leave something for a later run
-                        body_leaves = any(isinstance(y, (ast.Break, ast.Return)) for st_ in m.ast.body for y in ast.walk(st_))
+                        body_leaves = any(isinstance(y, ast.Break) for st_ in m.ast.body for y in ast.walk(st_))
                         if not body_leaves:
                             runs.append(m)
+                        else:
+                            runs_break.append(m)
+                other_uses = sum(1 for y in walk_own(f.node) if isinstance(y, ast.Name) and y.id == nm and isinstance(y.ctx, ast.Load))
+                # a loop that can be left with `break` takes the elements one stretch at a time; that is what `iter()` /
+                # `islice` are used for on purpose, but not what a generator expression / filter / map / zip bound to a name is for
+                stretch_ok = isinstance(v, ast.GeneratorExp) or (isinstance(v, ast.Call) and unparse(v.func) in ('filter', 'map', 'zip'))
+                cand = runs + (runs_break if stretch_ok else [])
+                if not cand or other_uses != len(runs) + len(runs_break):
+                    continue            # handed on, next()-ed or tested elsewhere: not modelled
+                # one run that sits in a loop the iterator was made outside of: the second time round it is empty
+                again = [m_ for m_ in cand if any(l_ not in cfg.nodes[dn].loops for l_ in m_.loops)]
+                if again:
+                    m_ = again[0]
+                    outer = [l_ for l_ in m_.loops if l_ not in cfg.nodes[dn].loops][0]
+                    n += 1
+                    obs.append(Ob('R-ONESHOT', f.fq, 'a one-shot iterator is run through once: `%s`' % nm, False,
+                                  '`%s = %s` (line %d) can be consumed only once, but it is run through at line %d inside the loop '
+                                  'at line %d, which it was made outside of: from the second round of that loop on it is empty and '
+                                  'the run does nothing' % (nm, unparse(v)[:40], cfg.nodes[dn].lineno, m_.lineno, cfg.nodes[outer].lineno),
+                                  construct='oneshot-loop:%s:%s' % (nm, unparse(v)[:40]), line=m_.lineno))
+                    continue
                 if len(runs) < 2:
                     continue
-                other_uses = sum(1 for y in walk_own(f.node) if isinstance(y, ast.Name) and y.id == nm and isinstance(y.ctx, ast.Load))
-                if other_uses != len(runs):
-                    continue            # handed on, next()-ed or tested elsewhere: not modelled
                 for a in runs:
                     for b in runs:
                         if a is b or b.id not in cfg.reach(a.id, avoid=frozenset([dn])):
@@ -1012,6 +1040,146 @@ def r_stalesnap(prog, tier):
     return obs, {}
 
 
+# ------------------------------------------------------------------------------------ R-INDEXBYVALUE
+
+_NODE_SOURCES = ('children', 'terminals', 'unordered_terminals', 'preorder', 'postorder', 'dominance')
+
+
+def r_indexbyvalue(prog, tier):
+    """Inside a loop over a sequence the position of the current element is looked up with `.index(element)`: of equal
+    elements (two tokens with the same word, a label that occurs twice on a right-hand side) every one gets the position of
+    the first.  Sequences of tree nodes are exempt (a node equals only itself)."""
+    obs = []
+    n = 0
+
+    def nodes_seq(f, e, depth=0):
+        if isinstance(e, ast.Attribute) and e.attr == 'children':
+            return True
+        if isinstance(e, ast.Call) and unparse(e.func).split('.')[-1] in _NODE_SOURCES:
+            return True
+        if isinstance(e, ast.Call) and isinstance(e.func, ast.Name) and e.func.id in ('list', 'sorted', 'reversed', 'tuple') and e.args:
+            return nodes_seq(f, e.args[0], depth + 1)
+        if isinstance(e, ast.Subscript) and isinstance(e.slice, ast.Slice):
+            return nodes_seq(f, e.value, depth + 1)
+        if isinstance(e, ast.Name) and depth < 3:
+            dv = [v for (_, v) in name_defs(f, e.id) if isinstance(v, ast.AST)]
+            return bool(dv) and all(nodes_seq(f, v, depth + 1) for v in dv)
+        return False
+
+    for mod in MODULES:
+        if mod not in prog.modules:
+            continue
+        for f in sorted(prog.modules[mod].funcs.values(), key=lambda x: x.fq):
+            parents = {}
+            for p_ in ast.walk(f.node):
+                for c_ in ast.iter_child_nodes(p_):
+                    parents[c_] = p_
+            for c in walk_own(f.node):
+                if not (isinstance(c, ast.Call) and isinstance(c.func, ast.Attribute) and c.func.attr == 'index' and len(c.args) == 1):
+                    continue
+                S, v = c.func.value, c.args[0]
+                # the loops / comprehension clauses around the call
+                binders = []
+                x = c
+                while x in parents:
+                    x = parents[x]
+                    if isinstance(x, ast.For):
+                        binders.append((x.target, x.iter))
+                    elif isinstance(x, (ast.ListComp, ast.SetComp, ast.GeneratorExp, ast.DictComp)):
+                        binders.extend((g.target, g.iter) for g in x.generators)
+                    if x is f.node:
+                        break
+                hit = None
+                for (tg, it) in binders:
+                    seq = it.args[0] if isinstance(it, ast.Call) and unparse(it.func) == 'enumerate' and it.args else it
+                    names = [y.id for y in ast.walk(tg) if isinstance(y, ast.Name)]
+                    if nodes_seq(f, seq) and isinstance(v, ast.Name):
+                        continue
+                    # (a) for v in S: ... S.index(v)
+                    if isinstance(v, ast.Name) and v.id in names and unparse(S) == unparse(seq):
+                        hit = 'the loop runs over `%s` and looks the element `%s` up in it' % (unparse(seq)[:40], v.id)
+                    # (b) L = [E(y) for y in T] ... for x in T: L.index(E(x))
+                    if hit is None and isinstance(S, ast.Name):
+                        dv = [d for (_, d) in name_defs(f, S.id) if isinstance(d, ast.AST)]
+                        if len(dv) == 1 and isinstance(dv[0], ast.ListComp) and len(dv[0].generators) == 1 \
+                                and isinstance(dv[0].generators[0].target, ast.Name) and not dv[0].generators[0].ifs \
+                                and unparse(dv[0].generators[0].iter) == unparse(seq) and len(names) >= 1 \
+                                and not isinstance(dv[0].elt, ast.Name):
+                            y = dv[0].generators[0].target.id
+                            for nm in names:
+                                import re as _re
+                                if _re.sub(r'\b%s\b' % _re.escape(y), nm, unparse(dv[0].elt)) == unparse(v):
+                                    hit = '`%s` holds `%s` of every element of `%s`, and the loop over the same elements looks ' \
+                                          'its own value up in it' % (S.id, unparse(dv[0].elt)[:30], unparse(seq)[:30])
+                    if hit:
+                        break
+                if hit:
+                    n += 1
+                    obs.append(Ob('R-INDEXBYVALUE', f.fq, 'an element is addressed by its position, not by its value: `%s`' % unparse(c)[:50],
+                                  False, '%s: when two elements are equal, both get the position of the first - the second is '
+                                  'written with the data of the first, and one position is never used' % hit,
+                                  construct='indexbyvalue:' + unparse(c)[:50], line=c.lineno))
+    obs.append(Ob('R-INDEXBYVALUE', 'package', 'scan for positions looked up by value inside a loop over the same sequence covered '
+                  'every function', True, '%d found' % n, construct='indexbyvalue-scan', nontrivial=False))
+    return obs, {}
+
+
+# ------------------------------------------------------------------------------------ R-COUNTERSTR
+
+_TEXT_FIELDS = ('label', 'word', 'lemma', 'edge', 'morph')
+
+
+def r_counterstr(prog, tier):
+    """`counter.update(<one string>)` counts the CHARACTERS of the string (update() takes an iterable of items): a Counter
+    that is to count labels or words gets `counter[s] += 1` or `counter.update([s])`."""
+    obs = []
+    n = 0
+    for mod in MODULES:
+        if mod not in prog.modules:
+            continue
+        m = prog.modules[mod]
+        # names bound to Counter(): locals, and attributes of self assigned anywhere in the class
+        attr_counters = set()
+        for f in m.funcs.values():
+            for st in walk_own(f.node):
+                if isinstance(st, ast.Assign) and isinstance(st.value, ast.Call) and unparse(st.value.func).split('.')[-1] == 'Counter' \
+                        and not st.value.args:
+                    for t in st.targets:
+                        if isinstance(t, ast.Attribute) and isinstance(t.value, ast.Name) and t.value.id == 'self':
+                            attr_counters.add((f.cls, t.attr))
+        for f in sorted(m.funcs.values(), key=lambda x: x.fq):
+            for c in walk_own(f.node):
+                if not (isinstance(c, ast.Call) and isinstance(c.func, ast.Attribute) and c.func.attr == 'update' and len(c.args) == 1
+                        and not c.keywords):
+                    continue
+                X = c.func.value
+                is_counter = False
+                if isinstance(X, ast.Name):
+                    dv = [v for (_, v) in name_defs(f, X.id) if isinstance(v, ast.AST)]
+                    is_counter = bool(dv) and all(isinstance(v, ast.Call) and unparse(v.func).split('.')[-1] == 'Counter' for v in dv)
+                elif isinstance(X, ast.Attribute) and isinstance(X.value, ast.Name) and X.value.id == 'self':
+                    is_counter = (f.cls, X.attr) in attr_counters
+                if not is_counter:
+                    continue
+                E = c.args[0]
+                if isinstance(E, ast.Name):
+                    dv = [v for (_, v) in name_defs(f, E.id) if isinstance(v, ast.AST)]
+                    E = dv[0] if len(dv) == 1 else E
+                text = isinstance(E, ast.Subscript) and isinstance(E.value, ast.Attribute) and E.value.attr == 'data' \
+                    and isinstance(E.slice, ast.Constant) and E.slice.value in _TEXT_FIELDS
+                text = text or (isinstance(E, ast.Attribute) and E.attr in _TEXT_FIELDS and isinstance(E.value, ast.Call)
+                                and unparse(E.value.func).split('.')[-1] == 'parse_label')
+                if text:
+                    n += 1
+                    obs.append(Ob('R-COUNTERSTR', f.fq, 'a counter of strings is fed strings, not characters: `%s`' % unparse(c)[:60], False,
+                                  '`update()` runs over its argument: handed the string `%s` it counts the characters of it, so the '
+                                  'counter ends up with one entry per distinct CHARACTER (`c[s] += 1` or `c.update([s])` counts the '
+                                  'string)' % unparse(c.args[0])[:40], construct='counterstr:' + unparse(c)[:60], line=c.lineno))
+    obs.append(Ob('R-COUNTERSTR', 'package', 'scan for Counter.update() on a single string covered every function', True,
+                  '%d found' % n, construct='counterstr-scan', nontrivial=False))
+    return obs, {}
+
+
 def r_leakvar(prog, tier):
     """Inside an outer loop, the variable of a finished inner `for` loop is read after that loop and is bound nowhere
     else: it holds the leftover of the last inner iteration - or, when the inner loop did not run for this outer
@@ -1156,6 +1324,11 @@ def fx(tree, **params):
     got = buf.getvalue()
     buf.write(lab)
     tree.data['got'] = got
+    labels = [c.data['label'] for c in tree.children]
+    for lb in labels:
+        tree.data['pos'] = labels.index(lb)
+    tagc = Counter()
+    tagc.update(tree.data['label'])
     live = filter(None, tree.children)
     for c in live:
         c.data['a'] = 1
@@ -1213,3 +1386,5 @@ r_oneshot = _with_fixture('R-ONESHOT', r_oneshot)
 r_loopreset = _with_fixture('R-LOOPRESET', r_loopreset)
 r_wrongcheck = _with_fixture('R-WRONGCHECK', r_wrongcheck)
 r_stalesnap = _with_fixture('R-STALESNAP', r_stalesnap)
+r_indexbyvalue = _with_fixture('R-INDEXBYVALUE', r_indexbyvalue)
+r_counterstr = _with_fixture('R-COUNTERSTR', r_counterstr)
